@@ -286,23 +286,21 @@ theorem mkAtom_fields (n : RawNode) (a : MAtom) (h : mkAtom n = some a) :
   split at h
   · rename_i z0 iso charge implicitH hz hiso hcharge hH
     split at h
+    · simp only [Option.some.injEq] at h
+      subst h
+      refine ⟨?_, rfl, ?_⟩
+      · simp only [rawCharge]
+        cases hc : n.charge with
+        | none => simp [hc] at hcharge; exact hcharge.symm
+        | some s => simp [hc] at hcharge; simp [hcharge]
+      · simp only [rawIsotope]
+        cases hi : n.isotope with
+        | none => simp [hi] at hiso; simp [← hiso]
+        | some s =>
+          simp [hi] at hiso
+          obtain ⟨v, hv, hv'⟩ := hiso
+          simp [hv, ← hv']
     · simp at h
-    · split at h
-      · simp only [Option.some.injEq] at h
-        subst h
-        refine ⟨?_, rfl, ?_⟩
-        · simp only [rawCharge]
-          cases hc : n.charge with
-          | none => simp [hc] at hcharge; exact hcharge.symm
-          | some s => simp [hc] at hcharge; simp [hcharge]
-        · simp only [rawIsotope]
-          cases hi : n.isotope with
-          | none => simp [hi] at hiso; simp [← hiso]
-          | some s =>
-            simp [hi] at hiso
-            obtain ⟨v, hv, hv'⟩ := hiso
-            simp [hv, ← hv']
-      · simp at h
   · simp at h
 
 theorem mapM_mkAtom_fields : ∀ (ns : List RawNode) (as : List MAtom), ns.mapM mkAtom = some as →
